@@ -163,7 +163,9 @@ def check_label(case) -> Result:
 
 def static_strategy():
     one = gen.mass_mod(('num', 'formula', 'unimod'), max_mult=1)
-    st_text = gen.mass_mod_text(('num', 'formula', 'unimod'), gt_ok=False)
+    st_plain = gen.mass_mod_text(('num', 'formula', 'unimod'), gt_ok=False)
+    # free text after '|INFO:' may contain an '@' (the rule's target separator is the LAST '@')
+    st_text = st.one_of(st_plain, st_plain, st_plain, st_plain.map(lambda t: t + '|INFO:ask a@b.org'))
     pm = gen.pep_model(alphabet='ACDEGKMSTP', min_len=1, max_len=20, kinds=('internal', 'nterm', 'cterm', 'static'), mod_strategy=one,
                        mod_list=st.lists(one, min_size=1, max_size=2), allow_empty=False, static_mod_text=st_text)
 
